@@ -181,6 +181,12 @@ class Ctx(object):
 
     def oblige(self, clause, goal, kind='K', node=None, note='', extra=None):
         goal = Z.simp(goal)
+        if not Z.is_true(goal):
+            gid = goal.get_id()
+            for p_ in self.pc:
+                if p_.get_id() == gid:
+                    goal = Z.TRUE       # the goal is literally one of the assumptions of the path
+                    break
         lineno = getattr(node, 'lineno', None)
         self.obls.append(Obligation(clause, kind, goal, list(self.pc), self.func, lineno, note,
                                     list(self.trail[:self.pos]), extra))
